@@ -148,7 +148,9 @@ class Expr(object):
     def canonize(self):
         def my_canon(e):
             if isinstance(e, ExprOp):
-                args = canonize_expr_list(e.args)
+                args = e.args
+                if e.op in op_assoc:
+                    args = canonize_expr_list(args)
                 return ExprOp(e.op, *args)
             elif isinstance(e, ExprCompose):
                 return ExprCompose(canonize_expr_list_compose(e.args))
